@@ -34,7 +34,7 @@ func (Engine) Plan(prop, tier string) kernel.Plan {
 		p.CrashProne = true
 		p.Runs = 8 * len(c13Families()) // ~1400 faulty decodes per run
 		if thorough {
-			p.Runs = 12500
+			p.Runs = 21000
 		}
 	}
 	return p
@@ -69,11 +69,13 @@ func (Engine) Describe(prop string) kernel.Describe {
 		d.Assumptions = []string{"no chunking in this check (reads return what they ask for; C16 varies delivery)", "only backend 0 (sim) is registered, as in every build of this repository, so address maps have 0 or 1 entries",
 			"envelopes fit the protobuf frame (64 KiB) and texts are valid UTF-8, as the protobuf encoder requires", "a ChannelSync transaction always has a state (a nil state cannot be converted by the protobuf encoder)"}
 	case "C13":
-		d.Rule = "one run = a batch of ~1400 faulty decodes of one family (17 envelope types, 11 value kinds, in turn): 3-5 well-formed base values, every truncation offset of the first one with every decoder (enumerated up to 2 KiB, 256 sampled beyond), and ~600 explicit faults. Decoders: ioConn.Recv with the native and with the protobuf serializer, wire.DecodeMsg, and Decode of State, Allocation, Balances, SubAlloc, Params, Transaction, wallet/wire address maps and arrays, primitives. Each decode runs under recover in the calling goroutine: a panic is a violation named by the innermost go-perun frame; a successful decode must respect MaxNumAssets, MaxNumParts, MaxNumSubAllocations and MaxBigIntLength; a worker killed by the runtime's out-of-memory error under the address-space limit is a violation found by the coordinator. Evaluations = decodes; non-trivial run = some mutant decoded and some was rejected. Structure-aware mutations (length fields from the encoder's write boundaries, protobuf messages rebuilt through the generated types) are input generation. " + shapes
-		d.FaultKinds = []string{"trunc / trunc-enum (stream ends after k bytes)", "flip (1-3 bits)", "len (a 1/2/4-byte length, count, backend-id, type or flag field overwritten with -1, 0, limit, limit+1, 2^15, 2^16-1, 2^31-1; little- and big-endian)",
+		d.Rule = "one run = a batch of ~1400 faulty decodes of one family (17 envelope types, 11 value kinds, in turn): 3-5 well-formed base values, every truncation offset of the first one with every decoder (enumerated up to 2 KiB, 256 sampled beyond), and ~600 explicit faults. Decoders: ioConn.Recv with the native and with the protobuf serializer, wire.DecodeMsg, and Decode of State, Allocation, Balances, SubAlloc, Params, Transaction, wallet/wire address maps and arrays, primitives. Each decode runs under recover in the calling goroutine: a panic is a violation named by the innermost go-perun frame; a successful decode must respect MaxNumAssets, MaxNumParts, MaxNumSubAllocations and MaxBigIntLength; a decoding process killed by the runtime's out-of-memory (or stack-overflow) error under the address-space limit is a violation named the same way; an encoding whose dimension field was set above the limit must not decode without error. Evaluations = decodes; non-trivial run = some mutant decoded and some was rejected. Structure-aware mutations (length fields from the encoder's write boundaries, protobuf messages rebuilt through the generated types) are input generation. " + shapes
+		d.FaultKinds = []string{"trunc / trunc-enum (stream ends after k bytes)", "flip (1-3 bits)", "len (a 1/2/4-byte length, count, backend-id, type or flag field overwritten with -1, 0, limit, limit+1, 2^15, 2^16-1, 2^31-1; little- and big-endian; optionally with zero bytes supplied for the announced elements)",
 			"splice (head of one message, tail of another)", "rand (random bytes)", "randtail (valid prefix, random rest)", "cross (bytes of one serializer fed to the other)",
 			"pb (protobuf message rebuilt with a repeated field shortened, duplicated, emptied or grown to 1025, a sub-message removed or emptied, a bytes field emptied / resized / set to a 4-byte backend id, a scalar set to a boundary value)"}
-		d.Assumptions = []string{"the worker limits its own address space to 32 GiB (RLIMIT_AS): a decoder that makes the runtime die with out-of-memory under that limit counts as not terminating with a value or an error; no deployment hands 32 GiB to the decoding of a message of at most 64 KiB",
+		d.Assumptions = []string{"the decodes of a batch run in a child process of the worker (same binary) whose address space is limited to 32 GiB (RLIMIT_AS): a decoder that makes the runtime die with out-of-memory under that limit counts as not terminating with a value or an error; no deployment hands 32 GiB to the decoding of a message of at most 64 KiB. The worker names the decode in flight from a marker the child writes before each decode and the innermost go-perun frame of the crash output",
+			"resident-memory guard: the go1.26 runtime that builds the workers fills a huge map table by table instead of requesting one block (the repository's go1.23 toolchain requests 118 GB at once), so reaching the limit would need 32 GiB of real memory in each of 16 workers; once a single decode has grown resident memory by 1 GiB it is therefore given only 256 MiB more address space, after which the runtime dies of out-of-memory on its own; single requests up to the limit (4 GiB for an AuthResponse length of 2^32-1) pass and are counted as probes",
+			"a child is replaced by a fresh one after any decode that allocated more than 64 MiB, so that the cost of re-zeroing recycled multi-GiB blocks is not attributed to a decoder; a child without progress for 100 s is killed and reported as non-termination",
 			"allocation of a single decode above 64 MiB is recorded as a probe only (the property does not bound memory)",
 			"a stream that ends (EOF after the faulty bytes) is how truncation reaches the decoder", "only backend 0 (sim) is registered; every other backend id on the wire is unknown"}
 	}
